@@ -347,6 +347,7 @@ def workload():
     F.L3().chained(1); J["chained"] = [("return", 1), ("return", 1), ("return", 1)]
     F.L3.cchained(1); J["cchained"] = [("return", 1), ("return", 1), ("return", 1)]
     F.posonly_star(1, 2, 3, z=4); J["posonly_star"] = [("return", 1)]
+    asyncio.run(F.coro_rebinding(5)); J["coro_rebinding"] = [("return", "5")]
 
 
 _RECORDED = None
